@@ -114,8 +114,8 @@ fn messages(tg: &Target, tier: Tier) -> Vec<(Env, Ty, Val)> {
             wire_tys.push(m);
         }
     }
-    let per_ty = tier.pick(4, 12);
-    let max_tys = tier.pick(40, 200);
+    let per_ty = tier.pick(6, 12);
+    let max_tys = tier.pick(160, 400);
     for wt in wire_tys.into_iter().take(max_tys) {
         let vals = gen::values(&tg.menv, &wt, &dom, 3);
         let n = vals.len();
